@@ -20,11 +20,30 @@ NOT_SHOWN = {
          "partition additivity NOT shown: observers in a "
          "cut plane or a face plane (there the parts' closed forms are evaluated on their own surface: the wrapper's surface/edge special cases and the 0/0 of the kernel are conventions, the "
          "oracle samples near but not on them); parts that are rotated or not axis-aligned (not Cuboids); parts with different polarization (then superposition C12, not C13); partitions of "
-         "every other class (Cylinder into CylinderSegments or stacked Cylinders, CylinderSegment into segments, Sphere, Tetrahedron/TriangularMesh into sub-meshes): closed forms in elliptic "
-         "integrals or solid angles, whole-vs-parts oracle only; the shift p - c of the observer stands for `position=c` of an unrotated part (pose handling is C06/C07)",
+         "the curved classes (Cylinder into CylinderSegments or stacked Cylinders, CylinderSegment into segments, Sphere): closed forms in elliptic "
+         "integrals, whole-vs-parts oracle only (Tetrahedron / TriangularMesh cut along full faces: proved, see the gluing entry below); the shift p - c of the observer stands for `position=c` of an unrotated part (pose handling is C06/C07)",
          "TriangularMesh = wrapH of the sum of its Triangle sheets, per row of any batch, with the inside test as a parameter (trimesh_is_wrapH_of_sheets, about the model the "
          "driver runs); that the ray-casting inside test is the geometric interior is C16 / oracle",
-         "TriangularMesh.to_TriangleCollection / from_triangles / from_mesh / from_ConvexHull preserve the field: not modelled, oracle only",
+         "TriangularMesh.from_mesh / from_triangles: PROVED (Model/MeshUnique.lean = the two glue lines np.unique(axis=0, return_inverse=True) + reshape, run by the driver and "
+         "compared with the real converters by the `mesh-unique` stream; from_mesh_roundtrip: vertices[faces] is the soup corner by corner up to the element type's ==, for every carrier "
+         "whose row order is a total preorder with == as symmetric part - reals, rationals, doubles without NaN; from_mesh_roundtrip_real / from_triangles_roundtrip: identity over the "
+         "reals; from_mesh_vertex_count: the vertices are the distinct corners, each once; from_mesh_preserves_field: all four outputs of bhjmTrimesh unchanged). NOT shown: WHICH of "
+         "several ==-equal rows numpy keeps (they differ in the sign of a zero; numpy's introsort is unstable above 16 rows - bit patterns compared only up to 15 corners, values by == "
+         "above); that the float kernel gives the same value for -0.0 and +0.0 corners (it need not: atan2 and division see the sign; observed only); NaN corners (kept as separate "
+         "vertices, vertices[faces] == mesh fails there, as the model reports); the validation / re-orientation that the constructor runs afterwards with default arguments (C16)",
+         "TriangularMesh.to_TriangleCollection: PROVED at the level of one row (to_triangle_collection_is_sheet_sum: the sum of the children's BHJM_triangle outputs = wrapH with the "
+         "inside verdict false: H everywhere, B / J / M outside); that a Collection sums its children and applies its pose is C05/C06, the style copy is not modelled",
+         "TriangularMesh.from_ConvexHull: scipy's Qhull is not modelled (which simplices it returns); the constructor then runs the modelled pipeline (C16); oracle only "
+         "(mesh-converters, cuboid-mesh-tetra-triangles, glued)",
+         "gluing along shared walls: PROVED (trimesh_glue_sheets / trimesh_glue_additive: parts whose common wall carries the same triangles with opposite winding - internal walls "
+         "cancel by triangle_field_flip, B/H/J/M add when the inside test of the union is the disjunction and the observer is not inside both; tetra_pair_glue / tetra_pair_is_mesh / "
+         "tetra_list_glue: any list of Tetrahedra glued along full faces = the TriangularMesh of the boundary). NOT shown: observers within the on_edge tolerance of a wall's edge "
+         "(hypothesis TriOffEdges; there the code's on-edge substitute does not cancel); parts whose common wall is triangulated differently on the two sides, or cut through the "
+         "interior of faces: Triangle(a,b,c) = Triangle(a,m,c) + Triangle(m,b,c) for m on the edge a b is proved only up to the solid-angle terms (triangle_split_additive_partial: same normal, "
+         "edge integral additive over the subdivision in every branch of the cancellation-free form - triangle_edge_integral_split -, the new edge cancels; the hypothesis SolidAngleAdditive "
+         "- the Van Oosterom-Strackee arctan values with the 2 pi clamp add - is proved only in the sector of the triangle's plane where all three vanish); "
+         "that the ray-casting inside test of the glued mesh IS the disjunction of the parts' tests (C16 / oracle `glued`: random convex hull cut by a plane through its centroid, "
+         "whole = sum of the two hulls, inside and outside, lengths 1e-6 ... 1e3)",
          "full_ring_is_cylinder_difference / partial_ring_is_segment unfold the `if` of BHJM_cylinder_segment_internal: the object-oriented wrapper BYPASSES the segment formulas at "
          "360 degrees; that the segment closed form at 360 degrees equals the Cylinder closed form is not shown; invariance of a CylinderSegment under phi -> phi + 360 for both angles: "
          "only the helper arctan_k_tan_2 is proved periodic",
@@ -44,6 +63,12 @@ def run(ctx, model_ok):
         ctx.cov["traces_validated_against_impl"] = st["rows"]
         st.pop("samples")
         ctx.cov["correspondence"] = st
+    if ctx.driver_ok:
+        # the soup -> (vertices, faces) glue of from_mesh / from_triangles (Model/MeshUnique.lean) against the real converters
+        from corr import mesh_family
+        su = mesh_family.run_unique(ctx, ctx.scale(150, 6000))
+        su.pop("samples", None)
+        ctx.cov["correspondence_mesh_unique"] = su
     # the CylinderSegment theorems are about Model/CylSeg*.lean: is the frozen translation still what the source says, and does the port agree with the real code?
     from checks import _cylseg
     _cylseg.run(ctx, ctx.scale(300, 10000))
